@@ -3,7 +3,7 @@ CONSTANTS
     Catalogue <- McCatalogue
     MaxOps = 5
     BatchIds = {1, 3}
-    Dev = {}
+    Dev = {"SharedEmptyStats"}
     FieldBytes <- McFieldBytes
     NormTable <- McNormTable
 VIEW view
